@@ -50,6 +50,12 @@ class Injector:
         self.buffered = False
         self.trace = []        # every file-system step of the call, faultable or not: [kind, relative path]
         self.fired_at = None   # length of trace when the fault fired
+        self.kill = None       # real-kill mode: called at a crash point, reports and ends the PROCESS (os._exit)
+
+    def die(self):
+        if self.kill is not None:
+            self.kill()
+        raise Crash()
 
     def arm(self, root, fault):
         self.root, self.on, self.n, self.ops, self.fault, self.fired = root, True, 0, [], fault, False
@@ -84,7 +90,7 @@ class Injector:
         self.fired_kind = kind
         v = f["variant"]
         if v == "crash" and not (is_write and self.buffered):
-            raise Crash()
+            self.die()
         if v == "enospc" and not (is_write and self.buffered):
             raise OSError(errno.ENOSPC, "No space left on device (injected)")
         if is_write and self.buffered and v in ("crash", "enospc"):
@@ -99,7 +105,7 @@ class Injector:
         if is_write and v == "enospc_empty":
             return (0, OSError(errno.ENOSPC, "No space left on device (injected)"))
         if v.startswith("crash"):
-            raise Crash()
+            self.die()
         raise OSError(errno.EFBIG, "File too large (injected)")
 
 
@@ -129,6 +135,8 @@ class WriteProxy:
         if act is not None:
             self._fh.write(_cut(data, act[0]))
             self._fh.flush()
+            if isinstance(act[1], Crash) and INJ.kill is not None:
+                INJ.kill()
             raise act[1]
         return self._fh.write(data)
 
@@ -141,6 +149,8 @@ class WriteProxy:
         if act is not None:
             self._fh.write(_cut(data, act[0]))
             self._fh.flush()
+            if isinstance(act[1], Crash) and INJ.kill is not None:
+                INJ.kill()
             raise act[1]
         self._fh.write(data)
 
@@ -231,63 +241,129 @@ def restart(base, budget):
     return backend
 
 
+def record(job, root, name, a, res, exc, crashed, fault):
+    """what one call of the job is reported as (in-process: after the call; real kill: by the dying process)"""
+    trace = {"trace": list(INJ.trace), "fired_at": INJ.fired_at,
+             "fired_kind": getattr(INJ, "fired_kind", "") if INJ.fired_at is not None else ""}
+    bodies = {}
+    for item in verif_side.log.take():
+        if item[0] == "Body":
+            k = "%s/%s" % (item[1], item[2])
+            bodies[k] = bodies.get(k, 0) + 1
+    fired = bool(fault) and INJ.fired
+    if name in ("forget", "list"):
+        ev = {"op": "Aux", "what": name, "exc": "" if exc is None else type(exc).__name__,
+              "msg": "" if exc is None else str(exc)[:150], "faulted": fired, "crashed": crashed}
+    else:
+        ok = (not crashed) and verif_flt.check(name, a, res, exc)
+        ev = {"op": "Call", "k": "%s/%s" % (name, a), "ok": bool(ok), "crashed": crashed,
+              "exc": "" if (exc is None or ok) else type(exc).__name__,
+              "msg": "" if exc is None else str(exc)[:150],
+              "bodies": [[k, n] for k, n in sorted(bodies.items())],
+              "faulted": fired,
+              "variant": fault["variant"] if fired else "",
+              "poisoned": poisoned_content_keys(root)}
+    return {"ev": ev, "opcount": INJ.n, "oplist": list(INJ.ops), "optrace": trace}
+
+
+def one_call(name, a):
+    if name == "forget":
+        verif_flt.FNS[a[0]].forget(a[1])
+    elif name == "list":
+        m.list_memoized_functions("vf")
+        verif_flt.FNS[a].list_mementos()
+    else:
+        return verif_flt.FNS[name](a)
+    return None
+
+
+def segment_in_child(job, base, root, first, wfd):
+    """real-kill mode: a process of its own performs the calls from `first` on and reports each over the pipe; at an injected
+    crash it reports the call it is in and ENDS (os._exit: no finally / except / __exit__ / buffered data of its own)"""
+    faults = {f["call"]: f for f in job.get("faults", [])}
+    out = os.fdopen(wfd, "w")
+    restart(base, job["cfg"].get("budget", 0))
+    for i in range(first, len(job["calls"])):
+        name, a = job["calls"][i]
+        fault = faults.get(i)
+
+        def kill(name=name, a=a, fault=fault):
+            INJ.on = False
+            out.write(json.dumps(record(job, root, name, a, None, None, True, fault)) + "\n")
+            out.flush()
+            os._exit(77)
+        verif_side.log.reset()
+        INJ.arm(root, fault)
+        INJ.buffered = bool(job["cfg"].get("buffered"))
+        INJ.kill = kill
+        res, exc = None, None
+        try:
+            res = one_call(name, a)
+        except Exception as e:
+            exc = e
+        finally:
+            INJ.disarm()
+        out.write(json.dumps(record(job, root, name, a, res, exc, False, fault)) + "\n")
+        out.flush()
+    os._exit(0)
+
+
+def run_calls_killing(job, base, root):
+    recs = []
+    while len(recs) < len(job["calls"]):
+        r, w = os.pipe()
+        pid = os.fork()
+        if pid == 0:
+            try:
+                os.close(r)
+                segment_in_child(job, base, root, len(recs), w)
+            finally:
+                os._exit(99)
+        os.close(w)
+        with os.fdopen(r) as f:
+            got = [json.loads(ln) for ln in f if ln.strip()]
+        _, status = os.waitpid(pid, 0)
+        code = os.waitstatus_to_exitcode(status)
+        if code not in (0, 77) or not got or (code == 77) != bool(got[-1]["ev"]["crashed"]):
+            raise RuntimeError("real-kill segment ended with status %s after %d reports" % (code, len(got)))
+        recs += got
+    return recs
+
+
+def run_calls_inprocess(job, base, root):
+    faults = {f["call"]: f for f in job.get("faults", [])}
+    recs = []
+    for i, (name, a) in enumerate(job["calls"]):
+        fault = faults.get(i)
+        verif_side.log.reset()
+        INJ.arm(root, fault)
+        INJ.buffered = bool(job["cfg"].get("buffered"))
+        INJ.kill = None
+        res, exc, crashed = None, None, False
+        try:
+            res = one_call(name, a)
+        except Crash:
+            crashed = True
+        except Exception as e:
+            exc = e
+        finally:
+            INJ.disarm()
+        recs.append(record(job, root, name, a, res, exc, crashed, fault))
+        if crashed:
+            restart(base, job["cfg"].get("budget", 0))
+    return recs
+
+
 def run_job(job):
     base = tempfile.mkdtemp(prefix="verif_flt_")
     root = os.path.join(base, "data")
     old = Environment.get()
-    events = []
     try:
         restart(base, job["cfg"].get("budget", 0))
-        faults = {f["call"]: f for f in job.get("faults", [])}
-        opcounts = []
-        oplists = []
-        optraces = []
-        for i, (name, a) in enumerate(job["calls"]):
-            fault = faults.get(i)
-            verif_side.log.reset()
-            INJ.arm(root, fault)
-            INJ.buffered = bool(job["cfg"].get("buffered"))
-            res, exc, crashed = None, None, False
-            try:
-                if name == "forget":
-                    verif_flt.FNS[a[0]].forget(a[1])
-                elif name == "list":
-                    m.list_memoized_functions("vf")
-                    verif_flt.FNS[a].list_mementos()
-                else:
-                    res = verif_flt.FNS[name](a)
-            except Crash:
-                crashed = True
-            except Exception as e:
-                exc = e
-            finally:
-                INJ.disarm()
-            opcounts.append(INJ.n)
-            oplists.append(list(INJ.ops))
-            optraces.append({"trace": list(INJ.trace), "fired_at": INJ.fired_at,
-                             "fired_kind": getattr(INJ, "fired_kind", "") if INJ.fired_at is not None else ""})
-            bodies = {}
-            for item in verif_side.log.take():
-                if item[0] == "Body":
-                    k = "%s/%s" % (item[1], item[2])
-                    bodies[k] = bodies.get(k, 0) + 1
-            fired = bool(fault) and INJ.fired
-            if name in ("forget", "list"):
-                events.append({"op": "Aux", "what": name, "exc": "" if exc is None else type(exc).__name__,
-                               "msg": "" if exc is None else str(exc)[:150], "faulted": fired, "crashed": crashed})
-            else:
-                ok = (not crashed) and verif_flt.check(name, a, res, exc)
-                events.append({"op": "Call", "k": "%s/%s" % (name, a), "ok": bool(ok), "crashed": crashed,
-                               "exc": "" if (exc is None or ok) else type(exc).__name__,
-                               "msg": "" if exc is None else str(exc)[:150],
-                               "bodies": [[k, n] for k, n in sorted(bodies.items())],
-                               "faulted": fired,
-                               "variant": fault["variant"] if fired else "",
-                               "poisoned": poisoned_content_keys(root)})
-            if crashed:
-                restart(base, job["cfg"].get("budget", 0))
-        return {"cfg": job["cfg"], "ev": events, "opcounts": opcounts, "oplists": oplists if job.get("want_ops") else None,
-                "optraces": optraces if job.get("want_trace") else None,
+        recs = run_calls_killing(job, base, root) if job["cfg"].get("realkill") else run_calls_inprocess(job, base, root)
+        return {"cfg": job["cfg"], "ev": [r["ev"] for r in recs], "opcounts": [r["opcount"] for r in recs],
+                "oplists": [r["oplist"] for r in recs] if job.get("want_ops") else None,
+                "optraces": [r["optrace"] for r in recs] if job.get("want_trace") else None,
                 "job": {"calls": job["calls"], "faults": job.get("faults", [])}}
     finally:
         INJ.disarm()
